@@ -13,8 +13,8 @@ Definition atom_text (a : atom) : str := match a with AStr s => s | _ => [] end.
 Definition texts (d : store) : list (str * str) :=
   flat_map (fun kv => List.map (fun a => (fst kv, atom_text a)) (atoms_of (snd kv))) d.
 
-Definition cookie_texts (j : list (str * (str * str))) : list (str * str) :=
-  List.map (fun e => (L "Set-Cookie", output_string (fst e) (snd (snd e)))) j.
+Definition cookie_texts (j : cjar) : list (str * str) :=
+  List.map (fun e => (L "Set-Cookie", cookie_output (fst e) (snd (fst (snd e))) (snd (snd e)))) j.
 
 Definition ctype_part (s : rstate) : list (str * str) :=
   match lookup_bad (st_code s) Gen.bad_headers with
@@ -85,14 +85,14 @@ Proof.
 Qed.
 
 Lemma emit_cookies_ok j cs :
-  emit_cookies j = Some cs ->
+  emit_cjar j = Some cs ->
   List.map (fun c => (L "Set-Cookie", c)) cs = List.map enc1 (cookie_texts j)
   /\ Forall scalar_text (cookie_texts j).
 Proof.
-  revert cs; induction j as [|[n [v c]] r IH]; intros cs; simpl.
+  revert cs; induction j as [|[n [[v c] at_]] r IH]; intros cs; simpl.
   - intros [= <-]. split; [reflexivity | constructor].
-  - destruct (transcode (output_string n c)) as [h|] eqn:T; [|discriminate].
-    destruct (emit_cookies r) as [t|] eqn:R; [|discriminate].
+  - destruct (transcode (cookie_output n c at_)) as [h|] eqn:T; [|discriminate].
+    destruct (emit_cjar r) as [t|] eqn:R; [|discriminate].
     intros [= <-]. destruct (IH t eq_refl) as [E Hs].
     destruct (transcode_some _ _ T) as [-> Hsc].
     simpl. rewrite E. split; [reflexivity | constructor; assumption].
@@ -105,7 +105,7 @@ Proof.
   unfold headerlist_cs, expected, ctype_part.
   destruct (emit_store (visible cs s)) as [out| |] eqn:E; try discriminate.
   destruct (emit_store_ok _ _ E) as [-> Hs].
-  destruct (emit_cookies (st_jar s)) as [cks|] eqn:C;
+  destruct (emit_cjar (st_jar s)) as [cks|] eqn:C;
     [|destruct (lookup_bad (st_code s) Gen.bad_headers); discriminate].
   destruct (emit_cookies_ok _ _ C) as [Ec Hc].
   assert (Ect : enc1 (L "Content-Type", Gen.default_content_type) = (L "Content-Type", Gen.default_content_type)).
@@ -248,40 +248,75 @@ Proof.
     pose proof (translate_char_not_ctl c) as H. rewrite Forall_forall in H. now apply H.
 Qed.
 
-Definition jar_ok (j : list (str * (str * str))) : Prop :=
-  Forall (fun e => is_legal_key (fst e) = true /\ snd (snd e) = quote (fst (snd e))) j.
+Definition attrs_ok (a : cattrs) : Prop := Forall (fun kf => clean (snd kf)) a.
 
-Lemma assoc_set_jar_ok k v j : jar_ok j -> is_legal_key k = true -> jar_ok (assoc_set k (v, quote v) j).
+Definition jar_ok (j : cjar) : Prop :=
+  Forall (fun e => is_legal_key (fst e) = true
+                   /\ snd (fst (snd e)) = quote (fst (fst (snd e)))
+                   /\ attrs_ok (snd (snd e))) j.
+
+Lemma cjar_put_ok k v j : jar_ok j -> is_legal_key k = true -> jar_ok (cjar_put k v (quote v) j).
 Proof.
-  intros Hj Hk. induction j as [|[k' x] r IH]; simpl.
-  - constructor; [split; [exact Hk | reflexivity] | constructor].
+  intros Hj Hk. induction j as [|[k' [[s0 c0] a0]] r IH]; simpl.
+  - constructor; [repeat split; [exact Hk | constructor] | constructor].
   - inversion Hj as [|? ? H1 H2]; subst. destruct (str_eqb k k').
-    + constructor; [split; [exact Hk | reflexivity] | exact H2].
+    + constructor; [|exact H2]. destruct H1 as [A [_ C]]. repeat split; assumption.
     + constructor; [exact H1 | apply IH; exact H2].
 Qed.
 
-Lemma plain_set_cookie_ok j n v j' : jar_ok j -> plain_set_cookie j n v = inl j' -> jar_ok j'.
+Lemma assoc_set_attrs_ok key frag a : attrs_ok a -> clean frag -> attrs_ok (assoc_set key frag a).
 Proof.
-  intros Hj. unfold plain_set_cookie, set_cookie.
+  intros Ha Hf. induction a as [|[k' f'] r IH]; simpl.
+  - constructor; [exact Hf | constructor].
+  - inversion Ha as [|? ? H1 H2]; subst. destruct (str_eqb key k').
+    + constructor; [exact Hf | exact H2].
+    + constructor; [exact H1 | apply IH; exact H2].
+Qed.
+
+Lemma cjar_attr_ok name key frag j : jar_ok j -> clean frag -> jar_ok (cjar_attr name key frag j).
+Proof.
+  intros Hj Hf. induction j as [|[k' [[s0 c0] a0]] r IH]; simpl; [constructor|].
+  inversion Hj as [|? ? H1 H2]; subst. destruct (str_eqb name k').
+  - constructor; [|exact H2]. destruct H1 as [A [B C]]. repeat split; try assumption.
+    simpl in *. now apply assoc_set_attrs_ok.
+  - constructor; [exact H1 | apply IH; exact H2].
+Qed.
+
+Lemma cookie_value_set_ok j n v j' : jar_ok j -> cookie_value_set j n v = inl j' -> jar_ok j'.
+Proof.
+  intros Hj. unfold cookie_value_set, set_cookie.
   destruct (Nat.ltb 4096 (length v)); [discriminate|].
   destruct (is_reserved n || negb (is_legal_key n)) eqn:E; [discriminate|].
-  intros [= <-]. apply assoc_set_jar_ok; [assumption|].
+  cbn [assoc_set]. intros [= <-]. apply cjar_put_ok; [assumption|].
   apply orb_false_iff in E. destruct E as [_ E]. now apply negb_false_iff in E.
 Qed.
 
 Lemma set_cookies_ok cs : forall j, jar_ok j -> jar_ok (fst (set_cookies j cs)).
 Proof.
   induction cs as [|[n v] r IH]; intros j Hj; simpl; [assumption|].
-  destruct (plain_set_cookie j n v) as [j'|e] eqn:E.
-  - apply IH. eapply plain_set_cookie_ok; eassumption.
-  - destruct e; assumption.
+  destruct (cookie_value_set j n v) as [j'|e] eqn:E.
+  - apply IH. eapply cookie_value_set_ok; eassumption.
+  - assumption.
 Qed.
 
-Lemma step_jar_ok s o : jar_ok (st_jar s) -> jar_ok (st_jar (fst (step s o))).
+Definition opts_ok (opts : list copt) : Prop :=
+  Forall (fun o => forall v t, o_val o = Some v -> hval v = HOk t -> clean (o_frag o)) opts.
+
+Lemma apply_opts_ok name opts : forall j, opts_ok opts -> jar_ok j -> jar_ok (fst (apply_opts true name j opts)).
 Proof.
-  intros Hj.
-  destruct o as [k v|k v|k v|items|k| |p v|w|st h m|st h m cs|n v|c]; unfold step;
-    try (unfold with_store;
+  induction opts as [|o r IH]; intros j Ho Hj; simpl; [assumption|].
+  inversion Ho as [|? ? H1 H2]; subst.
+  destruct (o_val o) as [v|] eqn:Ev; [|assumption].
+  destruct (hval v) as [| |t] eqn:Eh; try assumption.
+  destruct (is_reserved (o_key o)); [|assumption].
+  apply IH; [assumption|]. apply cjar_attr_ok; [assumption|]. eapply H1; [reflexivity | eassumption].
+Qed.
+
+Lemma step_jar_ok s o : guarded_op o -> jar_ok (st_jar s) -> jar_ok (st_jar (fst (step s o))).
+Proof.
+  intros G Hj.
+  destruct o as [k v|k v|k v|items|k| |p v|w|st h m|st h m cs|n v chk opts|c|k d| |ns|p|]; unfold step;
+    try (unfold with_store, del_key;
          repeat match goal with |- context [match ?x with _ => _ end] => destruct x end; simpl; assumption).
   - unfold init_run.
     repeat match goal with |- context [match ?x with _ => _ end] => destruct x end; simpl; constructor.
@@ -289,25 +324,68 @@ Proof.
     pose proof (set_cookies_ok cs [] (Forall_nil _)) as Hc.
     destruct (set_cookies [] cs) as [j [e|]]; simpl in *; [assumption|].
     destruct j; assumption.
-  - pose proof (set_cookies_ok [(n, v)] (st_jar s) Hj) as Hc.
-    destruct (set_cookies (st_jar s) [(n, v)]) as [j [e|]]; simpl in *; assumption.
+  - simpl in G. destruct G as [-> Ho]. unfold set_cookie_opts.
+    destruct (cookie_value_set (st_jar s) n v) as [j1|e] eqn:E; [|simpl; assumption].
+    pose proof (apply_opts_ok n opts j1 Ho (cookie_value_set_ok _ _ _ _ Hj E)) as H.
+    destruct (apply_opts true n j1 opts) as [j' oe]. simpl in *. exact H.
 Qed.
 
-Lemma run_jar_ok ops : forall s, jar_ok (st_jar s) -> jar_ok (st_jar (run s ops)).
+Lemma run_jar_ok ops : forall s, Forall guarded_op ops -> jar_ok (st_jar s) -> jar_ok (st_jar (run s ops)).
 Proof.
-  induction ops as [|o r IH]; intros s Hj; simpl; [assumption|].
-  apply IH. now apply step_jar_ok.
+  induction ops as [|o r IH]; intros s G Hj; simpl; [assumption|].
+  inversion G; subst. apply IH; [assumption|]. now apply step_jar_ok.
+Qed.
+
+Lemma attrs_insert_ok e a : clean (snd e) -> attrs_ok a -> attrs_ok (attrs_insert e a).
+Proof.
+  intros He Ha. induction a as [|e' r IH]; simpl; [constructor; [exact He | constructor]|].
+  inversion Ha as [|? ? H1 H2]; subst. destruct (str_ltb (fst e') (fst e)).
+  - constructor; [exact H1 | apply IH; exact H2].
+  - constructor; [exact He | exact Ha].
+Qed.
+
+Lemma attrs_sort_ok a : attrs_ok a -> attrs_ok (attrs_sort a).
+Proof.
+  unfold attrs_sort. induction a as [|e r IH]; intros Ha; simpl; [constructor|].
+  inversion Ha; subst. apply attrs_insert_ok; [assumption | now apply IH].
+Qed.
+
+Lemma frags_not_ctl a : attrs_ok a -> Forall not_ctl (flat_map frag_text a).
+Proof.
+  induction a as [|[k f] r IH]; intros Ha; simpl; [constructor|].
+  inversion Ha as [|? ? H1 H2]; subst. apply Forall_app. split; [|now apply IH].
+  unfold frag_text. simpl in *. destruct f as [|c f']; [constructor|].
+  constructor; [repeat split; discriminate|]. constructor; [repeat split; discriminate|].
+  now apply forall_clean.
 Qed.
 
 Lemma cookie_texts_clean j : jar_ok j -> Forall (fun ne => clean (snd ne)) (cookie_texts j).
 Proof.
-  induction j as [|[n [v c]] r IH]; intros Hj; simpl; [constructor|].
-  inversion Hj as [|? ? [Hk Hc] Hr]; subst. simpl in *. subst c.
-  constructor; [|now apply IH]. simpl. unfold output_string. apply clean_forall.
-  apply Forall_app. split.
+  induction j as [|[n [[v c] a]] r IH]; intros Hj; simpl; [constructor|].
+  inversion Hj as [|? ? [Hk [Hc Ha]] Hr]; subst. simpl in *. subst c.
+  constructor; [|now apply IH]. simpl. unfold cookie_output, output_string. apply clean_forall.
+  apply Forall_app. split; [apply Forall_app; split|].
   - destruct n as [|c0 n']; [discriminate|]. unfold is_legal_key in Hk. apply Forall_forall. intros x Hx.
     rewrite forallb_forall in Hk. apply legal_char_not_ctl. now apply Hk.
   - constructor; [repeat split; discriminate | apply quote_not_ctl].
+  - apply frags_not_ctl. now apply attrs_sort_ok.
+Qed.
+
+(* ---- the copy ---- *)
+Lemma cjar_insert_ok e j :
+  (is_legal_key (fst e) = true /\ snd (fst (snd e)) = quote (fst (fst (snd e))) /\ attrs_ok (snd (snd e))) ->
+  jar_ok j -> jar_ok (cjar_insert e j).
+Proof.
+  intros He Hj. induction j as [|e' r IH]; simpl; [constructor; [exact He | constructor]|].
+  inversion Hj as [|? ? H1 H2]; subst. destruct (str_ltb (fst e') (fst e)).
+  - constructor; [exact H1 | apply IH; exact H2].
+  - constructor; [exact He | exact Hj].
+Qed.
+
+Lemma cjar_sort_ok j : jar_ok j -> jar_ok (cjar_sort j).
+Proof.
+  unfold cjar_sort. induction j as [|e r IH]; intros Hj; simpl; [constructor|].
+  inversion Hj; subst. apply cjar_insert_ok; [assumption | now apply IH].
 Qed.
 
 Lemma default_ctype_clean : clean Gen.default_content_type.
@@ -327,9 +405,9 @@ Proof.
   destruct (has_key _ _); constructor; [exact default_ctype_clean | constructor].
 Qed.
 
-Lemma C14_emitted_safe_lemma :
-  forall ops, Forall guarded_op ops ->
-  let s := run init_state ops in
+Definition inv (s : rstate) : Prop := store_ok (st_store s) /\ jar_ok (st_jar s).
+
+Definition emitted_safe (s : rstate) : Prop :=
   headerlist s <> HLAttrError /\
   forall l, headerlist s = HLOk l ->
     exists srcs, srcs = expected Gen.headerlist_blacklist_case_sensitive s
@@ -337,15 +415,14 @@ Lemma C14_emitted_safe_lemma :
       /\ forall i n v, nth_error l i = Some (n, v) ->
            exists orig, nth_error srcs i = Some (n, orig)
              /\ wire_safe v /\ utf8_dec v = Some orig.
+
+Lemma emitted_safe_of_inv s : inv s -> emitted_safe s.
 Proof.
-  intros ops G s.
-  assert (Hs : store_ok (st_store s)) by (apply C14_store_invariant_lemma; exact G).
-  assert (Hj : jar_ok (st_jar s)) by (apply run_jar_ok; constructor).
-  split.
+  intros [Hs Hj]. split.
   - unfold headerlist, headerlist_cs.
     pose proof (emit_store_no_attr _ (visible_ok Gen.headerlist_blacklist_case_sensitive s Hs)) as Hn.
     destruct (emit_store (visible _ s)); [|congruence|discriminate].
-    destruct (emit_cookies (st_jar s)); discriminate.
+    destruct (emit_cjar (st_jar s)); discriminate.
   - intros l Hl. unfold headerlist in Hl.
     destruct (headerlist_expected _ _ _ Hl) as [-> Hsc].
     pose proof (expected_clean Gen.headerlist_blacklist_case_sensitive s Hs Hj) as Hc.
@@ -358,6 +435,78 @@ Proof.
     apply nth_error_In in En.
     rewrite Forall_forall in Hc, Hsc. specialize (Hc _ En). specialize (Hsc _ En). simpl in *.
     split; [now apply enc_wire_safe | now apply utf8_dec_enc].
+Qed.
+
+Lemma step_inv s o : guarded_op o -> inv s -> inv (fst (step s o)).
+Proof. intros G [Hs Hj]. split; [now apply step_ok | now apply step_jar_ok]. Qed.
+
+Lemma run_inv ops : forall s, Forall guarded_op ops -> inv s -> inv (run s ops).
+Proof.
+  induction ops as [|o r IH]; intros s G Hi; simpl; [assumption|].
+  inversion G; subst. apply IH; [assumption | now apply step_inv].
+Qed.
+
+Lemma init_inv : inv init_state.
+Proof. split; constructor. Qed.
+
+Lemma C14_emitted_safe_lemma :
+  forall ops, Forall guarded_op ops -> emitted_safe (run init_state ops).
+Proof. intros ops G. apply emitted_safe_of_inv. apply run_inv; [assumption | apply init_inv]. Qed.
+
+(* ---- a response and its copy ---- *)
+Definition guarded_pop (p : pop) : Prop := match p with POn _ o => guarded_op o | PCopy => True end.
+
+Definition pinv (st : pstate) : Prop := inv (fst st) /\ forall c, snd st = Some c -> inv c.
+
+Lemma copy_inv s c : inv s -> copy_of s = inl c -> inv c.
+Proof.
+  intros [Hs Hj]. unfold copy_of.
+  pose proof (init_run_ok (st_code s) (st_store s) []) as Hi.
+  destruct (init_run (st_code s) (st_store s) []) as [c0 [e|]]; [discriminate|].
+  intros [= <-]. split; simpl; [exact Hi | now apply cjar_sort_ok].
+Qed.
+
+Lemma pstep_inv st p : guarded_pop p -> pinv st -> pinv (fst (fst (pstep st p))).
+Proof.
+  intros G [Hr Hc]. destruct st as [r c]. destruct p as [oc o|]; simpl in *.
+  - destruct oc.
+    + destruct c as [cs|]; [|split; assumption].
+      pose proof (step_inv cs o G (Hc cs eq_refl)) as H.
+      destruct (step cs o) as [c' e]. simpl in *. split; [assumption|]. intros x [= <-]. exact H.
+    + pose proof (step_inv r o G Hr) as H. destruct (step r o) as [r' e]. simpl in *. split; assumption.
+  - destruct (copy_of r) as [cs|e] eqn:E; simpl; [|split; assumption].
+    split; [assumption|]. intros x [= <-]. eapply copy_inv; eassumption.
+Qed.
+
+Lemma prun_inv ps : forall st, Forall guarded_pop ps -> pinv st -> pinv (prun st ps).
+Proof.
+  induction ps as [|p r IH]; intros st G Hi; simpl; [assumption|].
+  inversion G; subst. apply IH; [assumption | now apply pstep_inv].
+Qed.
+
+Lemma C14_pair_invariant_lemma :
+  forall ps, Forall guarded_pop ps -> pinv (prun (init_state, None) ps).
+Proof.
+  intros ps G. apply prun_inv; [assumption|]. split; [apply init_inv | discriminate].
+Qed.
+
+Lemma C14_pair_emitted_safe_lemma :
+  forall ps, Forall guarded_pop ps ->
+  let st := prun (init_state, None) ps in
+  emitted_safe (fst st) /\ forall c, snd st = Some c -> emitted_safe c.
+Proof.
+  intros ps G st. destruct (C14_pair_invariant_lemma ps G) as [Hr Hc].
+  split; [now apply emitted_safe_of_inv|]. intros c E. apply emitted_safe_of_inv. now apply Hc.
+Qed.
+
+(* an operation on one of the two objects leaves the other exactly as it was *)
+Lemma copy_independent st oc o :
+  let st' := fst (fst (pstep st (POn oc o))) in
+  if oc then fst st' = fst st else snd st' = snd st.
+Proof.
+  destruct st as [r c]. destruct oc; simpl.
+  - destruct c as [cs|]; [|reflexivity]. destruct (step cs o); reflexivity.
+  - destruct (step r o); reflexivity.
 Qed.
 
 (* ------------------------------------------------------------------ *)
